@@ -13,17 +13,30 @@
 (*         trailing data in a separate fragment, "xbig" undecodable        *)
 (*         message followed in the SAME fragment by more trailing bytes    *)
 (*         than the read buffer holds, "eof" peer close, "rerr"            *)
-(*         transport read error, "lclose" local Close                      *)
+(*         transport read error, "lclose" local Close, "mp" a good message *)
+(*         whose handler panics, "mhp" a good message whose handler        *)
+(*         requests CloseNotify and then panics, "heof" the peer closes    *)
+(*         while the handler of a good message is still running (the step  *)
+(*         is recorded after the handler was released; `held` is the state *)
+(*         of the channels while it was still running: they must have      *)
+(*         fired by then if the reader had switched to the pipe)           *)
 (* After each step the harness records the state of every channel obtained *)
 (* so far and the number of messages handed to handlers; at the end the    *)
 (* number of library goroutines left over.                                 *)
 (***************************************************************************)
 EXTENDS Integers, Sequences, TLC
 
-Terminators == {"x", "xt", "xbig", "eof", "rerr", "lclose"}
-Requests(ev) == IF ev \in {"mh", "mm", "cn"} THEN 1 ELSE 0
-Delivers(ev) == CASE ev \in {"m", "mh", "m2"} -> 1 [] ev = "mm" -> 2 [] OTHER -> 0
+Terminators == {"x", "xt", "xbig", "eof", "rerr", "lclose", "mp", "mhp", "heof"}
+Requests(ev) == IF ev \in {"mh", "mm", "cn", "mhp"} THEN 1 ELSE 0
+Delivers(ev) == CASE ev \in {"m", "mh", "m2", "mp", "mhp", "heof"} -> 1 [] ev = "mm" -> 2 [] OTHER -> 0
 
+\* has the reader switched to the pipe (is the copier running) when message k is read?  A request made
+\* by a handler takes effect at the next read; one made from another goroutine while the reader is
+\* parked takes effect at the read after the one in progress, i.e. once something was read in between.
+ReadsSomething(ev) == ev \in {"m", "mh", "mm", "m1", "m2"}
+Switched(sched, k) == \E i \in 1..(k - 1) :
+                         \/ sched[i] \in {"mh", "mm"}
+                         \/ sched[i] = "cn" /\ \E j \in (i + 1)..(k - 1) : ReadsSomething(sched[j])
 RECURSIVE Check(_, _, _, _, _, _)
 Check(sched, steps, k, nreq, ndel, term) ==
   IF k > Len(sched) THEN <<>>
@@ -33,6 +46,7 @@ Check(sched, steps, k, nreq, ndel, term) ==
            term2 == term \/ ev \in Terminators
            o == steps[k]
        IN IF o.panic THEN <<"panic">>
+          ELSE IF ev = "heof" /\ Switched(sched, k) /\ (\E i \in 1..Len(o.held) : ~o.held[i]) THEN <<"not-closed-while-handler-runs">>
           ELSE IF Len(o.chans) # nreq2 THEN <<"harness-channel-count">>
           ELSE IF ~term2 /\ (\E i \in 1..Len(o.chans) : o.chans[i]) THEN <<"closed-before-termination">>
           ELSE IF term2 /\ (\E i \in 1..Len(o.chans) : ~o.chans[i]) THEN
